@@ -211,6 +211,8 @@ def plan(S, prop, mode, tier, avoid):
                   "sink": wpick(r, [("mem", 3), ("file", 2)]), "path": "c%d_p%d.txt" % (c, r.randrange(2)),
                   "also": [a for a in ("oneshot", "depth2", "repeat") if chance(r, 0.35)],
                   "scalar_q": chance(r, 0.1), "c": c}
+            if chance(r, 0.06):
+                op["rty"] = "f4"
             if prop == "C15":
                 op["pra"] = present.draw(r)
                 op["pdec"] = present.draw(r)
@@ -518,6 +520,12 @@ def do_match(run, op, M, htm, root, judge, c15):
     else:
         qra, qdec = points(op["q"])
     n1 = qra.size
+    r32 = None
+    if op.get("rty") == "f4" and not (op["perpoint"] and n1 > 1) and op["radius"] >= 1e-5:
+        # the search radius is a numpy.float32 scalar (a value out of a single-precision table): the radius IS its value
+        r32 = np.float32(op["radius"])
+        op = dict(op, radius=float(r32))
+        run.fault("radius_given_as_a_float32_scalar")
     if op["perpoint"] and n1 > 1:
         g = np.random.Generator(np.random.PCG64(op["rseed"]))
         radius = op["radius"] * g.uniform(0.2, 1.0, n1)
@@ -525,6 +533,8 @@ def do_match(run, op, M, htm, root, judge, c15):
     else:
         radius = np.full(n1, float(op["radius"]))
         rad_arg = op["radius"] if chance_det(op["rseed"]) else np.array([float(op["radius"])])     # (an int stays an int)
+        if r32 is not None:
+            rad_arg = r32
     maxmatch = op["maxmatch"]
     sink = op["sink"]
     path = os.path.join(root, op["path"])
